@@ -558,6 +558,11 @@ def exec_case(case, log, stats):
                     "op_index": [tid, idx],
                     "detail": {"thread": tid, "call": idx},
                 }
+            if "escape:RecursionError" in (verdict, reference[tid][idx][0]):
+                # the stack ran out on one side (a traced thread has less
+                # headroom than an untraced main thread): no verdict
+                stats.inc("recursion_exhausted(no verdict)")
+                continue
             if (verdict, nres) != reference[tid][idx]:
                 return {
                     "invariant": "differs_from_sequential",
